@@ -59,30 +59,45 @@ def build_driver():
     return time.time() - t
 
 # ------------------------------------------------------------------ running
+CHUNK_TIMEOUT = 240      # seconds for one shard; a single case gets LINE_TIMEOUT when a shard has to be bisected
+LINE_TIMEOUT = 10
+
+def _run_one(exe, line):
+    try:
+        q = subprocess.run([exe], input=line + "\n", stdout=subprocess.PIPE, stderr=subprocess.PIPE, text=True,
+                           timeout=LINE_TIMEOUT)
+    except subprocess.TimeoutExpired:
+        return "HANG"
+    o = q.stdout.strip("\n")
+    if q.returncode != 0 or o == "":
+        return "CRASH rc=%d" % q.returncode
+    return o
+
 def _run_chunk(exe, lines):
+    """one process for the whole chunk; if it dies or exceeds the hang guard, find the culprit case(s):
+    a dead process is reported as CRASH, a case that does not answer within LINE_TIMEOUT as HANG"""
     if not lines:
         return []
-    p = subprocess.run([exe], input="\n".join(lines) + "\n", stdout=subprocess.PIPE,
-                       stderr=subprocess.PIPE, text=True)
-    out = p.stdout.split("\n")
+    try:
+        p = subprocess.run([exe], input="\n".join(lines) + "\n", stdout=subprocess.PIPE,
+                           stderr=subprocess.PIPE, text=True, timeout=CHUNK_TIMEOUT)
+        out = p.stdout.split("\n")
+    except subprocess.TimeoutExpired as e:
+        so = e.stdout or ""
+        if isinstance(so, bytes):
+            so = so.decode(errors="replace")
+        out = so.split("\n")
+        if out and not so.endswith("\n"):
+            out.pop()                       # a partial last line
     if out and out[-1] == "":
         out.pop()
-    if len(out) != len(lines):
-        # the process died (stack overflow / abort): find the culprit line by line
-        res = list(out)
-        i = len(out)
-        while i < len(lines):
-            q = subprocess.run([exe], input=lines[i] + "\n", stdout=subprocess.PIPE,
-                               stderr=subprocess.PIPE, text=True)
-            o = q.stdout.strip("\n")
-            if q.returncode != 0 or o == "":
-                res.append("CRASH rc=%d" % q.returncode)
-                i += 1
-            else:
-                res.append(o)
-                i += 1
-        return res
-    return out
+    if len(out) >= len(lines):
+        return out[:len(lines)]
+    res = list(out)
+    i = len(out)
+    # the case at position i killed or stalled the process: run it alone, then the rest as a new chunk
+    res.append(_run_one(exe, lines[i]))
+    return res + _run_chunk(exe, lines[i + 1:])
 
 def run_exe(exe, lines, shards=NPROC):
     lines = list(lines)
